@@ -79,6 +79,31 @@ CHECKS["C03"] = dict(
     note="Trusted base: harness/src/stoptok.cpp, harness/include/vf/mt.hpp, g++ ASan, clang TSan. Schedules are "
          "those produced by the OS under seeded perturbation; not exhaustive.")
 
+MT_NOTE = ("Trusted base: the harness program, harness/include/vf/mt.hpp (hook runtime, relaxed-atomic monitors), g++ ASan/UBSan, "
+           "clang TSan (fence-based synchronisation annotated in one place, see DESIGN.md section 6). Schedules are those the OS "
+           "produced under seeded delay injection at the hook sites; not exhaustive; x86-64 only.")
+
+CHECKS["C15"] = dict(
+    level="exploration", design="5 C15",
+    technique="runtime monitoring under stress: owner-word mutual-exclusion monitor + plain counter inside the critical "
+              "section (TSan), grant/unlock conservation, try_lock probe at quiescence (leaked lock), bounded lost-wake-up "
+              "watchdog, FIFO rule over recorded start/grant sequence numbers; delay injection at the Dekker/queue hook sites; ASan and TSan builds",
+    text="2-8 threads hammer one v1 or v2 async_mutex with async_lock/try_lock/unlock; v2 waiters are cancelled before "
+         "start, while queued and racing the hand-off, with inline and real-context receiver schedulers. Violations: two "
+         "holders at once, lock not acquirable at quiescence, grants != unlocks, a started uncancelled lock pending for "
+         "30 s with nothing left to wake it, done without stop, FIFO inversion between real-time ordered queued waiters.",
+    note=MT_NOTE)
+CHECKS["C16"] = dict(
+    level="exploration", design="5 C16",
+    technique="runtime monitoring under stress: short concurrent histories on manual-reset events v1/v2 and the auto-reset "
+              "event checked at quiescent points (every waiter completes once after a set, none without one, reset only "
+              "affects later waits, values <= set() calls, permanently done), completion-thread check; ASan and TSan builds",
+    text="Waiters, setters, resetters and (v2) stop requests race on a fresh event per history; the oracle checks "
+         "exactly-once completion, no stranded waiter after set(), no completion without set(), behaviour after reset, "
+         "value completions on the receiver's scheduler thread; auto-reset event: values never exceed set() calls, done is "
+         "permanent. async_pass is covered by the separate pass harness when registered.",
+    note=MT_NOTE)
+
 NOT_YET = "check not built yet (construction in progress, see DESIGN.md section 10)"
 
 
